@@ -319,3 +319,33 @@ size_t hidden_good(const uint8_t* in, size_t n, uint8_t* out) {
     }
     return o;
 }
+
+/* ---- R27 stale member: a freed member of a live heap object is reset */
+typedef struct { uint8_t* dict; uint32_t* offsets; int n; } ctl_rd_t;
+void ctl_rd_free(ctl_rd_t* r) { if (!r) return; free(r->dict); free(r->offsets); free(r); }
+int stale_bad(ctl_rd_t* r, int n) {
+    if (n < 0) {
+        free(r->dict); free(r->offsets);
+        r->dict = NULL;                         /* offsets keeps the freed pointer: ctl_rd_free frees it again */
+        return -1;
+    }
+    r->n = n;
+    return 0;
+}
+int stale_good(ctl_rd_t* r, int n) {
+    if (n < 0) {
+        free(r->dict); free(r->offsets);
+        r->dict = NULL; r->offsets = NULL;
+        return -1;
+    }
+    r->n = n;
+    return 0;
+}
+long narrow_guard_local32_bad(const uint8_t* in, size_t in_size) {
+    uint32_t len, framed;
+    if (in_size < 4) return -1;
+    len = ctl_le32(in);
+    framed = 4 + len;                           /* 32-bit sum kept in a 32-bit local */
+    if (framed > in_size) return -1;
+    return (long)in[framed - 1];
+}
